@@ -665,10 +665,44 @@ def run_netns_case(case, acc):
                 if it.get("type") != "tun":
                     sh("ip", "link", "set", it["peer"], "up")
         harness.mark_current(case)
-        ref = json.loads(sh("ip", "-j", "addr", "show").stdout or "[]")
+
+        def ref_table():
+            r_ = json.loads(sh("ip", "-j", "addr", "show").stdout or "[]")
+            for x in r_:
+                for ai in x.get("addr_info", []):
+                    ai.pop("valid_life_time", None)
+                    ai.pop("preferred_life_time", None)
+            return r_
+        # links that were just brought up settle asynchronously (carrier, duplicate address detection): the reference is read
+        # before and after psutil's answers, and only a table that did not move in between is a reference
+        import time as _time
+        ref = ref_table()
+        for _attempt in range(40):
+            try:
+                addrs = ps.net_if_addrs()
+                stats = ps.net_if_stats()
+            except Exception:  # noqa: BLE001
+                break                          # reported by the questions below
+            ref_after = ref_table()
+            if ref_after == ref:
+                break
+            acc.count("netns_reference_moved_while_asking_retried")
+            ref = ref_after
+            _time.sleep(0.05)
+        else:
+            acc.count("netns_cases_not_judged_interface_table_kept_moving")
+            acc.case(case, False, [])
+            harness.mark_current(None)
+            return
         try:
             addrs = ps.net_if_addrs()
             stats = ps.net_if_stats()
+            if ref_table() != ref:
+                # moved again between the stable reading and this one: not judged
+                acc.count("netns_cases_not_judged_interface_table_kept_moving")
+                acc.case(case, False, [])
+                harness.mark_current(None)
+                return
         except Exception as e:  # noqa: BLE001
             mech = f"net_if_exception:{type(e).__name__}" + (":non_ascii_interface_name" if any(not i["name"].isascii() for i in made) else "")
             acc.case(case, True, [(mech, f"{e!r} with interfaces {[r.get('ifname') for r in ref]}")])
@@ -739,6 +773,9 @@ def run_netns_case(case, acc):
                             per_nic[(name, fn)] = getattr(env["cext"], fn)(name)
                         except OSError as e:
                             per_nic[(name, fn)] = ("OSError", e.errno)
+            if (stats2 != stats or addrs2 != addrs) and (ref_table() != ref or ps.net_if_stats() != stats or ps.net_if_addrs() != addrs):
+                acc.count("netns_unwritable_stderr_not_judged_interface_table_moved")
+                continue
             if stats2 != stats or addrs2 != addrs:
                 viols.append((f"net_if_answers_differ:debug_on_stderr_{mode}", f"plain: {stats} / {addrs}  now: {stats2} / {addrs2}"))
             for (name, fn), v in per_nic.items():
